@@ -528,7 +528,8 @@ def run(ctx, build, verdict, ev):
     c["sample_rows"] = len(small_cases) + len(large_cases)
     c["correspondence_mismatches"] = len(mism) + nmid + nred
     c["oracle_checks"] = oracle.checks
-    c["oracle_violations"] = oracle.n
+    c["oracle_violations"] = len(verdict.violations)            # concrete inputs contradicting the property, known findings excluded
+    c["known_finding_hits"] = dict(verdict.known_hits)         # e.g. batch:resolution-1
     c["samples"] = samples_out
     ev["assumptions"] += [
         "membership samples are taken from the implementation (the model under test is the defuzzifier, not the terms): the row handed to the Coq model is "
